@@ -143,3 +143,27 @@ func CanonicalGood(theta float64) float64 {
 	}
 	return theta
 }
+
+type joined []float64
+
+// want:IDX.FLOAT only equality with the length is handled.
+func (j joined) EvalBad(t float64) float64 {
+	idx := int(t * float64(len(j)))
+	if idx == len(j) {
+		idx--
+	} else if idx < 0 {
+		idx = 0
+	}
+	return j[idx]
+}
+
+// clean:IDX.FLOAT
+func (j joined) EvalGood(t float64) float64 {
+	idx := int(t * float64(len(j)))
+	if idx >= len(j) {
+		idx = len(j) - 1
+	} else if idx < 0 {
+		idx = 0
+	}
+	return j[idx]
+}
